@@ -194,3 +194,10 @@ Theorem C20_reserved_word_column_refuted :
   accepts (lit "* | json | (total) - used as free") <> None.
 Proof. vm_compute. split; [reflexivity|discriminate]. Qed.
 Print Assumptions C20_reserved_word_column_refuted.
+
+(** KF-52 - whitespace between the tokens of an access path is not optional whitespace: the spelling with blanks is
+    rejected (loudly), the one without is accepted *)
+Theorem C20_path_whitespace_refuted :
+  accepts (lit "* | json | arr[ 0 ] as v") = None /\ accepts (lit "* | json | arr[0] as v") <> None.
+Proof. vm_compute. split; [reflexivity|discriminate]. Qed.
+Print Assumptions C20_path_whitespace_refuted.
